@@ -128,7 +128,11 @@ impl<'a> LspServer<'a> {
                     }
                     self.handle_request(req);
                 }
-                lsp_server::Message::Response(_) => todo!(),
+                lsp_server::Message::Response(response) => {
+                    // This server never sends requests to the client, so there is
+                    // nothing a response could belong to.
+                    debug!("Ignoring response {:?}", response.id);
+                }
                 lsp_server::Message::Notification(notification) => {
                     self.handle_notification(&notification);
                 }
